@@ -16,7 +16,8 @@ STD_ENUMS = {
     "ser::Error": ["Io", "Value"],
 }
 STD_FIELDLESS = {"Ordering": {"Less": -1, "Equal": 0, "Greater": 1}}
-STD_STRUCTS = {"Range": ["start", "end"], "Integer": ["0"], "TryFromIntError": ["0"], "Infallible": [], "EndOfFile": []}
+STD_STRUCTS = {"Range": ["start", "end"], "RangeFrom": ["start"], "RangeTo": ["end"], "RangeToInclusive": ["end"],
+               "RangeFull": [], "Integer": ["0"], "TryFromIntError": ["0"], "Infallible": [], "EndOfFile": []}
 
 
 def strip_comments(src):
